@@ -450,6 +450,7 @@ static std::string check_c03(const Config & c, const Ev & e, const PortSide & P,
   }
   if (c.window() && n >= 2) {
     double s = kin(e.code[0], e.px[0], e.py[0], e.pz[0]) + kin(e.code[1], e.px[1], e.py[1], e.pz[1]);
+    if (c.mode == 10) s = kin(e.code[0], e.px[0], e.py[0], e.pz[0]); // 2nuKb+: one lepton (the second particle is the K X-ray)
     if (s < (double)(float)c.e1 - 1e-9 || s > (double)(float)c.e2 + 1e-9) {
       char b[128];
       snprintf(b, sizeof b, "lepton energy sum %.6f outside window [%g,%g]", s, c.e1, c.e2);
@@ -871,7 +872,7 @@ static std::string run_config(const Config & c, const Opts & o)
   int perr = X.P.init(c, PHASE);
   bool port_ok = (perr == 0);
   std::ostringstream js;
-  js << "{\"config\":" << cfg_json(c) << ",\"key\":" << jstr(c.key()) << ",\"ref_available\":" << (X.R.available ? "true" : "false") << ",\"ref_ier\":" << ier
+  js << "{\"config\":" << cfg_json(c) << ",\"pid\":" << (long)getpid() << ",\"key\":" << jstr(c.key()) << ",\"ref_available\":" << (X.R.available ? "true" : "false") << ",\"ref_ier\":" << ier
      << ",\"port_err\":" << perr << ",\"port_init_what\":" << jstr(X.P.init_what);
   // documented difference of the model (DESIGN C06): for mode 20 the Fortran silently coerces the
   // level to 0; README: quadruple beta "only to the ground state" -> the expected answer is reject
